@@ -346,6 +346,7 @@ func init() {
 			{"N1", "from the extracted name-addr automaton (33 states x byte classes): the more-values exit is reached only on ',', only outside quoted strings and angle brackets, only under multipleValsOk(kind) whose constant set is Contact/Record-Route/Route/PAI, and continues after the comma", ruleN1},
 			{"N2", "after-whitespace sibling states (found structurally: X -LWS-> Y) accept every delimiter of ';' ',' '=' that the state before the whitespace accepts - the static form of 'optional linear whitespace around ; = and ,'", ruleN2},
 			{"N3", "every transition that ends a parameter value (to a non-value state or a completing exit) calls setFromParamVal; the known names tag/expires/q/lr are recognised by length + CmpEq of the whole name and nothing else", ruleN3},
+			{"N7", "the automaton extracted from ParseNameAddrPVal equals the reviewed reference table (ref/ParseNameAddrPVal.txt): for every state and byte class the next state or exit, the verdict set, the field actions with their arguments (locals other than the scan index abstracted) and the returned offset; a transition that loses an action, changes target, verdict or byte class shows up as a missing and an extra row", func(c *Ctx) { fsmRefRule(c, "N7", "ParseNameAddrPVal") }},
 			{"N6", "Contact / P-Asserted-Identity headers always reach their typed parser and their header counter (shared with C01-R3b): the dispatch state is never left undispatched and the dispatcher reports a non-zero verdict only after storing a typed state", ruleN6},
 			{"N5", "the number helper behind expires / q rejects only non-numbers: every error return of pUInt64Val lies inside its digit loop or under the len(b) > K test, and its success return hands back the accumulator as the loop left it, so the empty string is 0 (q=1. has an empty fraction)", ruleN5},
 			{"N4", "list bookkeeping: N++, Min/MaxExpires, first-contact copy unconditional in the completion clause, HNo on first entry, header kind recorded on every completing exit", ruleN4},
